@@ -51,8 +51,27 @@ func runC05(c *RuleCtx) {
 			return (a.Kind == "index" || a.Kind == "lookupval") && a.Args[0].IsField("PubSub.mySubs")
 		}, "==", isZero)
 	}
+	// the relay count: myRelays[topic] itself, or the updated value `old ± 1` held in a local, provided exactly
+	// that value is what the handler stores back (then the local equals the map entry from the store on)
 	relaysIs := func(n string) Atom {
-		return AtomCmp("myRelays[topic] == "+n, func(v *V) bool { return v.Kind == "index" && v.Args[0].IsField("PubSub.myRelays") }, "==", isLit(n))
+		isCount := func(v *V) bool { return v != nil && v.Kind == "index" && v.Args[0].IsField("PubSub.myRelays") }
+		return Atom{Desc: "myRelays[topic] == " + n, Match: func(g *Graph, e ast.Expr) (bool, bool) {
+			updated := func(v *V) bool {
+				if isCount(v) {
+					return true
+				}
+				if v == nil || v.Kind != "op" || (v.Name != "+" && v.Name != "-") || len(v.Args) != 2 || !isCount(v.Args[0]) || !v.Args[1].IsConst("1") {
+					return false
+				}
+				for _, s := range g.P.AllStores() {
+					if s.Fn.Root() == g.F.Root() && s.Field == "PubSub.myRelays" && s.Kind == "elem-assign" && s.RHS != nil && g.P.R(s.Fn).Val(s.RHS).Equal(v) {
+						return true
+					}
+				}
+				return false
+			}
+			return AtomCmp("", updated, "==", isLit(n)).Match(g, e)
+		}}
 	}
 	notFanoutOnly := Atom{Desc: "topic not fanout-only", Match: func(g *Graph, e ast.Expr) (bool, bool) {
 		v := g.P.R(g.F).Val(e)
@@ -179,10 +198,7 @@ func runC05(c *RuleCtx) {
 		if sd.fn == handlers[3] {
 			// the entry test `myRelays[topic] == 0` (nothing to cancel) precedes the decrement; only the test after the decrement is the guard
 			for _, e := range g.AtomEdges(relaysIs("0"), true) {
-				if !g.DominatedByNode(Point{e.From, len(e.From.Nodes) - 1}, func(n ast.Node) bool {
-					s, ok := n.(*ast.IncDecStmt)
-					return ok && s.Tok == token.DEC
-				}) {
+				if !g.DominatedByNode(Point{e.From, len(e.From.Nodes) - 1}, isCounterStepNode(p, f, "PubSub.myRelays", -1)) {
 					cut[e] = true
 				}
 			}
@@ -193,9 +209,14 @@ func runC05(c *RuleCtx) {
 	// R05.2 counters: who may write
 	for _, s := range p.StoresTo("PubSub.myRelays") {
 		root := s.Fn.Root().Name
-		switch s.Kind {
+		kind := s.Kind
+		step := counterStep(p, s.Fn, s)
+		if step != 0 {
+			kind = "elem-incdec"
+		}
+		switch kind {
 		case "elem-incdec":
-			inc := s.Tok == token.INC
+			inc := step > 0
 			if inc {
 				c.Check(root == handlers[2], "R05.2", root, "relay count incremented", s.Node, "handleAddRelay", "myRelays incremented outside handleAddRelay")
 			} else {
@@ -224,9 +245,10 @@ func runC05(c *RuleCtx) {
 			cut[e] = true
 		}
 		var dec ast.Node
+		isDec := isCounterStepNode(p, f, "PubSub.myRelays", -1)
 		inspectNoLit(f.Body, func(n ast.Node) bool {
-			if s, ok := n.(*ast.IncDecStmt); ok && s.Tok == token.DEC {
-				dec = s
+			if isDec(n) {
+				dec = n
 			}
 			return true
 		})
